@@ -636,13 +636,13 @@ func (c *Config) UnmarshalYAML(unmarshal func(any) error) error {
 
 			rocketchatcfg.TokenID = cmp.Or(rocketchatcfg.TokenID, c.Global.RocketchatTokenID)
 			rocketchatcfg.TokenIDFile = cmp.Or(rocketchatcfg.TokenIDFile, c.Global.RocketchatTokenIDFile)
-			if rocketchatcfg.TokenID == nil && len(rocketchatcfg.TokenIDFile) == 0 {
+			if (rocketchatcfg.TokenID == nil || *rocketchatcfg.TokenID == "") && len(rocketchatcfg.TokenIDFile) == 0 {
 				return errors.New("no global Rocketchat TokenID set either inline or in a file")
 			}
 
 			rocketchatcfg.Token = cmp.Or(rocketchatcfg.Token, c.Global.RocketchatToken)
 			rocketchatcfg.TokenFile = cmp.Or(rocketchatcfg.TokenFile, c.Global.RocketchatTokenFile)
-			if rocketchatcfg.Token == nil && len(rocketchatcfg.TokenFile) == 0 {
+			if (rocketchatcfg.Token == nil || *rocketchatcfg.Token == "") && len(rocketchatcfg.TokenFile) == 0 {
 				return errors.New("no global Rocketchat Token set either inline or in a file")
 			}
 		}
